@@ -61,8 +61,18 @@ func VerifC12Checkpoint() {
 	t := mkvs.New(nil, d, node.RootTypeState)
 	type kv struct{ k, v []byte }
 	var contents []kv
+	if base := symx.Cfg("chain", 0); base > 0 {
+		// a deep prefix chain "a", "aa", "aaa", ... of symbolic length base..base+span-1 with symbolic values
+		k = base + symx.Choose("chainLen", symx.Cfg("chainspan", 1))
+	}
 	for i := 0; i < k; i++ {
-		key, val := c12Key(i), symx.Bytes(symx.N("val", i), 1)
+		var key []byte
+		val := symx.Bytes(symx.N("val", i), 1)
+		if symx.Cfg("chain", 0) > 0 {
+			key = bytes.Repeat([]byte{'a'}, i+1)
+		} else {
+			key = c12Key(i)
+		}
 		symx.Assert(t.Insert(c12Ctx, key, val) == nil, "Insert failed")
 		dup := false
 		for j := range contents {
